@@ -7,6 +7,7 @@
 #include <vector>
 #include "vp_io.hxx"
 #include "TFEL/Math/Kriging.hxx"
+#include "TFEL/Math/vector.hxx"
 #include "TFEL/Math/Kriging1D.hxx"
 #include "TFEL/Math/Kriging2D.hxx"
 #include "TFEL/Math/Kriging3D.hxx"
@@ -143,22 +144,47 @@ static std::vector<double> column(const std::vector<Pt>& P, const size_t k) {
   return c;
 }
 
-static Res runWrapper(const Data& d, const int N) {
+// V = std::vector<double> or tfel::math::vector<double>: the wrappers have one constructor for each
+template <typename V>
+static V column_as(const std::vector<Pt>& P, const size_t k) {
+  V c;
+  for (const auto& p : P) c.push_back(p[k]);
+  return c;
+}
+template <typename V>
+static V values_as(const std::vector<double>& v) {
+  V c;
+  for (const auto x : v) c.push_back(x);
+  return c;
+}
+
+template <typename V>
+static Res runWrapperWith(const Data& d, const int N) {
   return attempt([&](Res& r) {
+    const auto vals = values_as<V>(d.vals);
     if (N == 1) {
-      Kriging1D k(column(d.pts, 0), d.vals);
+      Kriging1D k(column_as<V>(d.pts, 0), vals);
       for (const auto& p : d.pts) r.at.push_back(k(p[0]));
       for (const auto& p : d.probes) r.pr.push_back(k(p[0]));
     } else if (N == 2) {
-      Kriging2D k(column(d.pts, 0), column(d.pts, 1), d.vals);
+      Kriging2D k(column_as<V>(d.pts, 0), column_as<V>(d.pts, 1), vals);
       for (const auto& p : d.pts) r.at.push_back(k(p[0], p[1]));
       for (const auto& p : d.probes) r.pr.push_back(k(p[0], p[1]));
     } else {
-      Kriging3D k(column(d.pts, 0), column(d.pts, 1), column(d.pts, 2), d.vals);
+      Kriging3D k(column_as<V>(d.pts, 0), column_as<V>(d.pts, 1), column_as<V>(d.pts, 2), vals);
       for (const auto& p : d.pts) r.at.push_back(k(p[0], p[1], p[2]));
       for (const auto& p : d.probes) r.pr.push_back(k(p[0], p[1], p[2]));
     }
   });
+}
+
+static Res runWrapper(const Data& d, const int N) { return runWrapperWith<std::vector<double>>(d, N); }
+
+// the two constructor overloads of a wrapper must build the same interpolant
+static bool sameRes(const Res& a, const Res& b) {
+  if (a.ok != b.ok) return false;
+  if (!a.ok) return true;
+  return a.at == b.at && a.pr == b.pr;
 }
 
 static Res runFactorizedTemplate(const Data& d) {
@@ -228,6 +254,7 @@ int main(int argc, char** argv) {
       if (d.nug == 0) {
         const Res w = runWrapper(d, N);
         o.set("wrap", abstract(w, d)).set("wagree", Json(close(w, tn, d)));
+        o.set("woverloads", Json(sameRes(w, runWrapperWith<tfel::math::vector<double>>(d, N))));
       } else {
         Json sk = Json::object();
         sk.set("out", Json("skipped"));
